@@ -418,13 +418,15 @@ fn rewrite_search(search: Search) -> Search {
             if let Some(head) = pattern.strip_suffix(".*") {
                 pattern = head.to_owned();
             }
-            Search::Regex(
-                RegexBuilder::new(&pattern)
-                    .case_insensitive(insensitive)
-                    .build()
-                    .expect("could not build regex"),
-                insensitive,
-            )
+            // NOTE: Stripping can leave an invalid pattern behind (e.g. `.*?foo`), in which case
+            // the original regex is kept.
+            match RegexBuilder::new(&pattern)
+                .case_insensitive(insensitive)
+                .build()
+            {
+                Ok(rewritten) => Search::Regex(rewritten, insensitive),
+                Err(_) => Search::Regex(regex, insensitive),
+            }
         }
         Search::RegexSet(regex, insensitive) => {
             let mut patterns = vec![];
@@ -438,13 +440,13 @@ fn rewrite_search(search: Search) -> Search {
                 }
                 patterns.push(pattern);
             }
-            Search::RegexSet(
-                RegexSetBuilder::new(patterns)
-                    .case_insensitive(insensitive)
-                    .build()
-                    .expect("could not build regex"),
-                insensitive,
-            )
+            match RegexSetBuilder::new(patterns)
+                .case_insensitive(insensitive)
+                .build()
+            {
+                Ok(rewritten) => Search::RegexSet(rewritten, insensitive),
+                Err(_) => Search::RegexSet(regex, insensitive),
+            }
         }
         _ => search,
     }
